@@ -503,6 +503,9 @@ func (g gcsComp) Gen(r *rand.Rand, tier string, n int) []*wire.Case {
 		"for x; x < 3; x = x + 1 { }", "fn f(a, a) { return a; }", "fn f(a, b, a) { return a; }", "let g = fn(a, a) { return a; };", "break 1;", "continue", "fallthrough;", "f(;", "f);", "a(b)(;",
 		"x = = 1;", "1 = x;", "let true = 1;", "true = 1;", "false;", "null = 2;", "- ;", "! ;", "!;", "x !;", "(;", ");", "();", "{", "}", "{}", "{;}", ";;", "case 1: x;", "default: x;", "else { }", "if x { } else", "if x { } else if { }",
 		"while x { } else { }", "return 1", "return", "return; return;", "let x = fn;", "let x = fn();", "let x = fn() { };", "fn f() { fn g() { return 1; } return g(); }")
+	// a stray terminator in every statement position (top level, block, case body, default body, after a nested block)
+	add("d-stray-terminators", ";", "a(); ;", "{ a(); ; }", "switch x { case 1: a(); ; }", "switch x { case 1: ; }", "switch { default: ; }", "switch x { case 1: if y { a(); }; case 2: b(); }",
+		"switch x { case 1: a(); default: b(); ; }", "if x { ; }", "while x { a(); ; }", "for ; ; { ; }", "fn f() { ; } ", "switch x { ; }", "switch x { case 1: { ; } }", "switch x { case 1: a();; break; }")
 	add("d-ops", "= == > >= < <= <> != ! && || & |", "a&&b||c", "a<>b", "!a", "!=")
 	add("d-missing-parts", "let x = (1 + 2;", "let x = ; ;", "let x = ;", "let = 1;", "let x 1;", "x = ;", "if x { y = 1; ", "if { }", "while { }", "fn (a) { }", "fn f(a { }", "fn f(a,) { }",
 		"switch x { case : y; }", "switch x { y; }", "for let i = 0 i < 3 { }", "f(1,;", "f(1 2);", "[1, 2", "[a = ]", "return ;", "let x = 1 + ;", "let x = * 2;", "x = (;", "let x = ();")
